@@ -131,35 +131,29 @@ theorem set_len_keeps_ip (f : Fam) (x : Obj) (arg : Int) (hip : x.ip < 2 ^ f.w) 
   refine ⟨fun h => ⟨_, sp.1 h, rfl, ?_, valid_ofIpLen f _ _ hip (by omega)⟩, sp.2⟩
   simp only [ofIpLen]; omega
 
-/-- the `network_offset` setter, for an offset `k ≥ 0`: accepted iff `k` does not exceed the last
-address of the network; then the host address becomes `network + k`, network and prefix length are
-unchanged and the invariant holds; otherwise `AddressValueError`.
-
-Full statement wanted by the property: the same for every integer `k`, a negative `k` being
-rejected.  The code has no lower bound (see `set_offset_negative_accepted`), hence `_partial`. -/
-theorem set_offset_sets_ip_partial (f : Fam) (x : Obj) (vx : Valid f x) (k : Nat) :
-    (k ≤ asDecimalBroadcast f x - x.net →
-      ∃ y, setOffset f x k = .ok y ∧ y.ip = x.net + k ∧ y.net = x.net ∧ y.len = x.len ∧ Valid f y) ∧
-    (¬ k ≤ asDecimalBroadcast f x - x.net → setOffset f x k = .error .addressValueError) := by
-  have sp := setOffset_nonneg f x vx k
+/-- the `network_offset` setter, for every integer `k`: accepted iff `0 ≤ k` and `k` does not
+exceed the last address of the network; then the host address becomes `network + k`, network and
+prefix length are unchanged and the invariant holds; otherwise (negative, or past the last
+address) `AddressValueError` and nothing is assigned. -/
+theorem set_offset_sets_ip (f : Fam) (x : Obj) (vx : Valid f x) (k : Int) :
+    (0 ≤ k ∧ k ≤ (asDecimalBroadcast f x : Int) - (x.net : Int) →
+      ∃ y, setOffset f x k = .ok y ∧ (y.ip : Int) = (x.net : Int) + k ∧ y.net = x.net ∧
+        y.len = x.len ∧ Valid f y) ∧
+    (¬ (0 ≤ k ∧ k ≤ (asDecimalBroadcast f x : Int) - (x.net : Int)) →
+      setOffset f x k = .error .addressValueError) := by
   have hP : 0 < 2 ^ hb f x := Nat.two_pow_pos _
   rw [bcast_eq]
   constructor
-  · intro hk
-    have hk' : k < 2 ^ hb f x := by omega
-    exact ⟨_, sp.1 hk', rfl, rfl, rfl, valid_same_block f x vx k hk'⟩
-  · intro hk
-    exact sp.2 (by omega)
-
-/-- what the code does with a negative offset: it is accepted whenever `network + k` is still a
-legal address, the address then lies outside the network and `network_object` is stale -/
-theorem set_offset_negative_accepted (f : Fam) (x : Obj) (vx : Valid f x) (k : Int) (hk : k < 0)
-    (h0 : 0 ≤ (x.net : Int) + k) :
-    ∃ y, setOffset f x k = .ok y ∧ (y.ip : Int) = (x.net : Int) + k ∧ y.ip < y.net := by
-  have hb1 := vx.block_le
-  have hP : 0 < 2 ^ hb f x := Nat.two_pow_pos _
-  have := (setOffset_neg f x k hk).1 h0 (by unfold allOnes; omega)
-  exact ⟨_, this, by simp only; omega, by simp only; omega⟩
+  · rintro ⟨h0, hk⟩
+    obtain ⟨n, rfl⟩ := Int.eq_ofNat_of_zero_le h0
+    have sp := setOffset_nonneg f x vx n
+    have hk' : n < 2 ^ hb f x := by omega
+    exact ⟨_, sp.1 hk', by simp only; omega, rfl, rfl, valid_same_block f x vx n hk'⟩
+  · intro h
+    by_cases h0 : 0 ≤ k
+    · obtain ⟨n, rfl⟩ := Int.eq_ofNat_of_zero_le h0
+      exact (setOffset_nonneg f x vx n).2 (by omega)
+    · exact setOffset_neg f x k (by omega)
 
 /-- the `network_offset` getter returns `ip - network`, except that it raises `RequirementFailure`
 on the last address of a network of four or more addresses -/
@@ -169,15 +163,14 @@ theorem get_offset_spec (f : Fam) (ok : f.Ok) (x : Obj) (vx : Valid f x) :
       else .ok ((x.ip : Int) - (x.net : Int)) :=
   getOffset_spec f ok x vx
 
-/-- every way of obtaining an object establishes or preserves the class invariant (the
-`network_offset` setter only for a non-negative offset) -/
+/-- every way of obtaining an object establishes or preserves the class invariant -/
 theorem invariant_preserved (f : Fam) (ok : f.Ok) :
     (∀ ip len, ip < 2 ^ f.w → len ≤ f.w → Valid f (ofIpLen f ip len)) ∧
     (∀ n y, ofInt f n = .ok y → Valid f y) ∧
     (∀ x n y, Valid f x → add f x n = .ok y → Valid f y) ∧
     (∀ x n y, Valid f x → sub f x n = .ok y → Valid f y) ∧
     (∀ x l y, Valid f x → setLen f x l = .ok y → Valid f y) ∧
-    (∀ x (k : Nat) y, Valid f x → setOffset f x k = .ok y → Valid f y) := by
+    (∀ x (k : Int) y, Valid f x → setOffset f x k = .ok y → Valid f y) := by
   have hm := ok.maxInt_eq
   have hp : 0 < 2 ^ f.w := Nat.two_pow_pos _
   refine ⟨valid_ofIpLen f, ?_, ?_, ?_, ?_, ?_⟩
@@ -195,9 +188,10 @@ theorem invariant_preserved (f : Fam) (ok : f.Ok) :
     · rw [sp.1 hr] at h; cases h; exact valid_ofIpLen f _ _ vx.ip_lt (by omega)
     · rw [sp.2 hr] at h; cases h
   · intro x k y vx h
-    have sp := setOffset_nonneg f x vx k
-    by_cases hk : k < 2 ^ hb f x
-    · rw [sp.1 hk] at h; cases h; exact valid_same_block f x vx k hk
+    have sp := set_offset_sets_ip f x vx k
+    by_cases hk : 0 ≤ k ∧ k ≤ (asDecimalBroadcast f x : Int) - (x.net : Int)
+    · obtain ⟨y', hy, _, _, _, vy⟩ := sp.1 hk
+      rw [hy] at h; cases h; exact vy
     · rw [sp.2 hk] at h; cases h
 
 /-- the family constants of the generated tables satisfy what the proofs assume -/
@@ -218,9 +212,8 @@ example : setLen v4 (ofIpLen v4 0x0a000005 24) 33 = .error .netmaskValueError :=
 example : setLen v4 (ofIpLen v4 0x0a000005 24) 16 = .ok (ofIpLen v4 0x0a000005 16) := by decide
 example : setOffset v4 (ofIpLen v4 0x0a000005 24) 255 = .ok (ofIpLen v4 0x0a0000ff 24) := by decide
 example : setOffset v4 (ofIpLen v4 0x0a000005 24) 256 = .error .addressValueError := by decide
-/-- the defect: 10.0.0.5/24 with `network_offset = -1` becomes 9.255.255.255 with network 10.0.0.0/24 -/
-example : setOffset v4 (ofIpLen v4 0x0a000005 24) (-1) = .ok ⟨0x09ffffff, 0x0a000000, 24⟩
-    ∧ ¬ Valid v4 ⟨0x09ffffff, 0x0a000000, 24⟩ := by decide
+-- F41 input (repaired): 10.0.0.5/24 with `network_offset = -1` is rejected
+example : setOffset v4 (ofIpLen v4 0x0a000005 24) (-1) = .error .addressValueError := by decide
 example : getOffset v4 (ofIpLen v4 0x0a0000ff 24) = .error .requirementFailure := by decide
 example : getOffset v4 (ofIpLen v4 0x0a0000fe 24) = .ok 254 := by decide
 
